@@ -21,13 +21,20 @@ mod core;
 mod mailbox;
 mod sync_impl;
 
+#[cfg(not(excsn_fibre_verif))]
 use parking_lot::Mutex;
 use std::collections::HashSet;
 use std::hash::Hash;
+#[cfg(not(excsn_fibre_verif))]
 use std::sync::{
   atomic::{AtomicBool, Ordering},
   Arc,
 };
+// Verification builds route the topic channel through the traced primitives (hook H2).
+#[cfg(excsn_fibre_verif)]
+use crate::internal::sync::{AtomicBool, Mutex, Ordering};
+#[cfg(excsn_fibre_verif)]
+use std::sync::Arc;
 
 // --- Public Re-exports ---
 
